@@ -53,7 +53,7 @@ def verify_one(job):
         rep = eng.verify_function(c, regimes=regimes)
         return {
             "target": target, "contract_module": c.__module__, "source_hash": rep.source_hash, "paths": rep.paths,
-            "exits": rep.exits, "error": rep.error, "trusted": sorted(rep.trusted),
+            "exits": rep.exits, "live_exits": rep.live_exits, "unknown_exits": rep.unknown_exits, "error": rep.error, "trusted": sorted(rep.trusted),
             "uses_contracts": sorted(rep.uses_contracts), "solver_time": rep.solver_time, "wall": rep.wall,
             "obligations": [dict(ob.to_json(), model=ob.model) for ob in rep.obligations],
             "excluded": [dict(ob.to_json(), finding=fid, model=ob.model) for ob, fid in rep.excluded],
@@ -184,14 +184,14 @@ def main(argv=None):
         n_excluded += len(rep["excluded"])
         trusted |= set(rep["trusted"])
         functions.append({"function": rep["target"], "source_sha": rep["source_hash"], "paths": rep["paths"],
-                          "exits_reached": rep["exits"], "obligations": len(rep["obligations"]),
+                          "exits_reached": rep["exits"], "exits_with_model": rep.get("live_exits"), "obligations": len(rep["obligations"]),
                           "discharged": sum(1 for o in rep["obligations"] if o["status"] == "valid"),
                           "excluded_by_known_finding": len(rep["excluded"]),
                           "solver_s": round(rep["solver_time"], 3), "wall_s": round(rep["wall"], 3),
                           "callee_contracts_used": rep["uses_contracts"], "error": rep.get("error"),
                           "backends": sorted({o["backend"] for o in rep["obligations"]})})
-        if not rep.get("error") and rep["exits"] == 0:
-            errors.append(f"{rep['target']}: vacuous: no exit reached")
+        if not rep.get("error") and (rep["exits"] == 0 or rep.get("live_exits", 0) + rep.get("unknown_exits", 0) == 0):
+            errors.append(f"{rep['target']}: vacuous: no satisfiable exit reached")
         if not rep.get("error") and len(rep["obligations"]) + len(rep["excluded"]) == 0:
             errors.append(f"{rep['target']}: vacuous: zero obligations")
     lemma_out = []
